@@ -105,7 +105,7 @@ def retry_ann(ghost):
     return ann
 
 
-def pairing(kind, udp=False):
+def pairing(kind, udp=False, tcp=False):
     def lemma(E):
         wire, rec = CL.Wire(), F.Rec()
 
@@ -118,7 +118,7 @@ def pairing(kind, udp=False):
                 return d
             return d[:max(size, 0)]
         retries = E.int('retries', 0, 4)
-        client, tm, f = CL.make_client(E, kind, wire, rec, retries, E.bool('retry_on_empty'), E.bool('retry_on_invalid'), transport, udp=udp)
+        client, tm, f = CL.make_client(E, kind, wire, rec, retries, E.bool('retry_on_empty'), E.bool('retry_on_invalid'), transport, udp=udp, tcp=tcp)
         # left in the framer by an earlier transaction: nothing, or some bytes (their number does not matter to execute: it only tests for emptiness)
         stale = E.bytes_n('stale_buffer', 5) if E.choice('stale_bytes_in_framer', [False, True]) else b''
         E.set(f, '_buffer', stale)
@@ -308,9 +308,11 @@ def get_units():
                        functions=[TMQ + '._transact', TMQ + '._recv', TMQ + '._send', fq + '.buildPacket', fq + '.sendPacket', fq + '.recvPacket']))
         ghost = {}
         cs = (CL.TransactAny(kind), CL.FramerDelivers(kind))
-        for udp in ((False, True) if kind == 'socket' else (False,)):
-            nm = '%s/pairing.%s%s' % (PROP, kind, '.udp' if udp else '')
-            us.append(Unit(nm, pairing(kind, udp), [PROP], contracts=cs, loops={(TMQ + '.execute', 0): retry_ann(ghost)}, twin=pairing_twin(kind),
+        # client classes: the base client (serial-style), the UDP-style client (socket framing), and the TCP client class carrying this framing
+        # (plain Modbus/TCP for the socket framer, framer-over-TCP for the serial framings)
+        for (udp, tcp) in ((False, False), (False, True)) + (((True, False),) if kind == 'socket' else ()):
+            nm = '%s/pairing.%s%s' % (PROP, kind, '.udp' if udp else '.tcpclient' if tcp else '')
+            us.append(Unit(nm, pairing(kind, udp, tcp), [PROP], contracts=cs, loops={(TMQ + '.execute', 0): retry_ann(ghost)}, twin=pairing_twin(kind),
                            functions=[TMQ + '.execute', TMQ + '._transact', TMQ + '._recv', TMQ + '._send', TMQ + '.getNextTID', CL.TM + '.addTransaction', CL.TM + '.getTransaction']))
     us.append(Unit('%s/tid' % PROP, tid_lemma, [PROP], functions=[TMQ + '.getNextTID']))
     us.append(Unit('%s/serial.flush' % PROP, serial_flush_lemma, [PROP], functions=['pymodbus.client.sync.ModbusSerialClient._send', 'pymodbus.client.sync.ModbusSerialClient._in_waiting']))
